@@ -8,6 +8,7 @@ from pathlib import Path
 
 import common as C
 import c01
+import history as H
 import pagegen as G
 import zocheck as ZC
 import zorgapi as Z
@@ -70,6 +71,28 @@ def one_query_dir(ctx, res, rng, k):
             return None
         url = f"sqlite:///{zdir}/.zorg/zorg.db"
         rows = {r["zid"]: r for r in G.dump_index(zdir)}
+        if k % 2 == 0:
+            # notes edited and stamped on three later days (multi-line ones every day): what the selector prints must still
+            # compile to the notes as they are written in the files
+            w = H.World(ctx, rng, zdir, cfg, start=TODAY)
+            for _rnd in range(3):
+                w.advance(1)
+                for rel, text in w.files().items():
+                    ls = text.split("\n")
+                    spans = H.item_spans(ls)
+                    for a, _b in ([sp for sp in spans if sp[1] - sp[0] > 1][:2] or spans[:1]):
+                        ls[a] += f" r{_rnd}"
+                    (zdir / rel).write_text("\n".join(ls))
+                if w.run("db", "reindex") != 0:
+                    return None
+            rows = {r["zid"]: r for r in G.dump_index(zdir)}
+        written = {}
+        for pth in sorted(zdir.rglob("*.zo")):
+            if ".zorg" not in pth.parts:
+                comp = ZC.impl_compile(ctx.tmp / "w", "p.zo", pth.read_text(), TODAY)
+                for n in comp.get("notes", []):
+                    if n["zid"]:
+                        written[n["zid"]] = n["body"]
         # the text form `note move` writes (inherited tags / properties made explicit after the ZID) compiles back to the note
         from zorg.service import note_utils
         from zorg.storage.sql import SQLSession
@@ -113,6 +136,9 @@ def one_query_dir(ctx, res, rng, k):
                     r = rows[n["zid"]]
                     if n["body"] != r["body"] or n["kind"] != r["kind"]:
                         res.failures.append(C.Failure(f"{label}: note {n['zid']} body/kind changed: {r['body']!r} -> {n['body']!r}", {"query": q}))
+                        break
+                    if n["body"] != written.get(n["zid"], n["body"]):
+                        res.failures.append(C.Failure(f"{label}: note {n['zid']} is printed as {n['body']!r} but the page holds {written[n['zid']]!r}", {"query": q, "kind": "printed_vs_page"}))
                         break
     return None
 
